@@ -16,6 +16,7 @@ mod procs;
 mod rng;
 mod shellrun;
 mod sim;
+mod syscalls;
 mod wakers;
 mod world;
 
@@ -140,6 +141,9 @@ fn verif_dir() -> String {
 fn main() {
     let args: Vec<String> = std::env::args().collect();
     match args.get(1).map(String::as_str) {
+        Some("real-sys") => {
+            syscalls::real_sys_main();
+        }
         Some("real-shell") => {
             real::real_shell_main(args[2..].to_vec());
         }
